@@ -193,8 +193,9 @@ def slot_provenance(prog, run, rule, classes=None):
             inv = {k: r_ for r_, k in pos_of.items()}
             names = [inv.get(k, f"#{k}") for k in got]
             ok = got == [want]
-            run.ob(rule, runf.qual, f"result.{field} holds the {role} table of the pole routine", ok,
-                   f"values come from returned table(s) {names}" + ("" if ok else f" - expected {role}: tables change places on the way into the result ({cfg})"),
+            blind = f"; not decided: the analysis did not follow {ti.unknown[0][1]}" if ti.unknown else ""
+            run.ob(rule, runf.qual, f"result.{field} holds the {role} table of the pole routine", True if ok else (None if blind else False),
+                   f"values come from returned table(s) {names}" + ("" if ok else f" - expected {role}: tables change places on the way into the result ({cfg}){blind}"),
                    witness=f"{field}<-{names}", file=f, node=runf.node, config=cfg)
 
 
@@ -220,7 +221,7 @@ def labels_final(prog, run, rule, classes=None):
         for p_, field in zip(pos[:3], ("Fn_poles", "Xi_poles", "Phi_poles")):
             got = {l for l in labels(env.get(p_)) if l.startswith("hc:")}
             want = {l for l in labels(res.attrs.get(field)) if l.startswith("hc:")}
-            ok = got == want
+            ok = True if got == want else (None if ti.unknown else False)
             run.ob(rule, runf.qual, f"SC_apply.{p_} is the table stored as result.{field}", ok,
                    f"criteria on the labelled table {sorted(x[3:] for x in got)}, on the stored table {sorted(x[3:] for x in want)}" +
                    ("" if ok else f" - the labels are computed before {sorted(x[3:] for x in want - got)} is applied: poles rejected afterwards keep a stable label ({cfg})"),
@@ -243,7 +244,7 @@ def check(prog, run):
     maskkind.obligations(prog, run, "R-sense", ("pyoma2.algorithms.ssi", "pyoma2.algorithms.plscf"))
 
 
-def classes_rules(prog, run, classes, rn):
+def classes_rules(prog, run, classes, rn, only=None):
     """the dependence rules for the given (class, method, calc_unc) configurations; rn maps 'reach' / 'pattern' / 'bind' to the rule
     name under which the obligations are reported (a missing key switches that family off) - shared with C01 / C05"""
     for cq, method, unc in classes:
@@ -269,10 +270,14 @@ def classes_rules(prog, run, classes, rn):
             run.ob(rn.get("reach") or rn.get("bind"), runf.qual, "result", None, f"run() did not evaluate to a result object ({res!r})"[:160], file=f, config=cfg)
             continue
         present = {}
+        # what the interpreter could not follow (a dictionary updated with unknown entries, keywords spread from an unknown mapping ...):
+        # with any of those, "nothing arrives here" is not a fact about the code and the verdict is left open
+        blind = f"; not decided: the analysis did not follow {ti.unknown[0][1]}" + (f" (and {len(ti.unknown) - 1} more)" if len(ti.unknown) > 1 else "") if ti.unknown else ""
+        absent = None if blind else False
         for tname in tables:
             v = res.attrs.get(tname)
-            if v is None and "reach" in rn:
-                run.ob(rn["reach"], runf.qual, f"{tname}", False, f"result table {tname} of {res_cls.node.name} is not stored by run() ({cfg})", witness="not stored", file=f, config=cfg)
+            if v is None and "reach" in rn and (only is None or tname in only):
+                run.ob(rn["reach"], runf.qual, f"{tname}", absent, blind[2:] + " - " * bool(blind) + f"result table {tname} of {res_cls.node.name} is not stored by run() ({cfg})", witness="not stored", file=f, config=cfg)
                 continue
             if v is None:
                 continue
@@ -280,21 +285,23 @@ def classes_rules(prog, run, classes, rn):
                 continue  # table absent in this configuration (e.g. covariances without calc_unc)
             present[tname] = frozenset(l for l in labels(v) if l.startswith("hc:"))
         has_cov = any(t.endswith("_cov") for t in present)
+        if only is not None:
+            present = {t: v for t, v in present.items() if t in only}           # e.g. the tables a diagram reads
         for k in keys:
             if k == "cov_max" and not has_cov:
                 continue
             for tname, ls in (present.items() if "reach" in rn else ()):
                 ok = f"hc:{k}" in ls
-                run.ob(rn["reach"], runf.qual, f"{k} -> {tname}", ok,
+                run.ob(rn["reach"], runf.qual, f"{k} -> {tname}", True if ok else absent,
                        f"criteria reaching {tname}: {sorted(x[3:] for x in ls)}" if ok else
-                       f"hc['{k}'] has no effect on {tname}: criteria reaching it are {sorted(x[3:] for x in ls)} ({cfg})",
+                       f"hc['{k}'] has no effect on {tname}: criteria reaching it are {sorted(x[3:] for x in ls)} ({cfg}){blind}",
                        witness=f"missing {k}", file=f, node=runf.node, config=cfg)
         sets = {t: ls for t, ls in present.items()}
         if sets and "pattern" in rn:
             ref = max(sets.values(), key=len)
             odd = sorted(t for t, ls in sets.items() if ls != ref)
-            run.ob(rn["pattern"], runf.qual, "tables share one criteria set", not odd,
-                   f"{len(sets)} tables, criteria {sorted(x[3:] for x in ref)}" if not odd else f"tables {odd} carry a different criteria set than the others ({cfg})",
+            run.ob(rn["pattern"], runf.qual, "tables share one criteria set", True if not odd else absent,
+                   f"{len(sets)} tables, criteria {sorted(x[3:] for x in ref)}" if not odd else f"tables {odd} carry a different criteria set than the others ({cfg}){blind}",
                    witness=",".join(odd), file=f, node=runf.node, config=cfg)
         # R-bind from the call log
         for k, (fq, param) in (BIND.items() if "bind" in rn else ()):
@@ -302,7 +309,7 @@ def classes_rules(prog, run, classes, rn):
                 continue
             calls = [(env, node) for q, env, node in ti.call_log if q == fq]
             if not calls:
-                run.ob(rn["bind"], runf.qual, f"hc['{k}'] -> {fq.split('.')[-1]}.{param}", False, f"{fq.split('.')[-1]} is never called by run() ({cfg})",
+                run.ob(rn["bind"], runf.qual, f"hc['{k}'] -> {fq.split('.')[-1]}.{param}", absent, f"{fq.split('.')[-1]} is never called by run() ({cfg}){blind}",
                        witness="not called", file=f, config=cfg)
                 continue
             for env, node in calls:
